@@ -678,6 +678,10 @@ func TestVerifC03(t *testing.T) {
 				// clean-up of another)
 				j := i / 40
 				p = c03prog{Name: "many-pending-then-open", NCtr: 150 + 10*(j%12), LongNames: 150 + 50*((j/12)%4), Threads: [][]c03op{{{Kind: "open"}}}}
+				// ... and goes on counting afterwards (counters flushed early, in the middle and last)
+				for _, c := range []int{0, 1, p.NCtr / 3, p.NCtr / 2, p.NCtr - 2, p.NCtr - 1} {
+					p.Threads[0] = append(p.Threads[0], c03op{Kind: "add", Ctr: c, N: 1})
+				}
 				for c := 0; c < p.NCtr; c++ {
 					p.PreTouch = append(p.PreTouch, c)
 				}
